@@ -207,6 +207,8 @@ def strseq(result):
     from pyvc.stubs import sstr_to_z3
     if hasattr(result, "arr"):           # GrowList
         return result.n, (lambda i: z3.Select(result.arr, i))
+    if hasattr(result, "getter"):        # a symbolic sequence returned as is
+        return result.length, result.get
     items = list(result.items) if hasattr(result, "items") else list(result)
     plain = [it for it in items if not hasattr(it, "seq")]
     splices = [it for it in items if hasattr(it, "seq")]
@@ -283,6 +285,13 @@ def _flush_contract():
                       same_map(L.self.pendingCommands.view(), o))
     c.loop(0, invariant=inv, havoc={"returnCommands": mk_cmdlist}, havoc_fields=["self.gcodeParser.*"], scratch=["gcode", "cmdArgs"])
     c.ensures("C06.flush-in-order-then-exit-script", flush_spec, props=("C06", "C15"))
+
+    def fresh_list(f):
+        """The caller appends the re-synchronisation commands to the returned list, so it must be a new list -- never the
+        configured script object itself (which would grow with every episode)."""
+        scripts = (f.self.exitingExcludedRegionGcode, f.self.enteringExcludedRegionGcode)
+        return all(f.result is not s_ for s_ in scripts if s_ is not None)
+    c.ensures("C06.result-does-not-alias-the-configured-script", fresh_list, props=("C06", "C15"))
 
 
 _flush_contract()
